@@ -127,7 +127,7 @@ example : let cf : Conf := { run := fun _ => { cfg := { N := 2, retries := 2 }, 
 
 /-- the sequential schedulers are instances of the abstract scheduler: without
 interaction a session's trace is the abstract execution of its own pick sequence -/
-theorem c11_sequential_is_instance (cf : Conf) (k : Kind) (g : G) (order cs : List Nat)
+theorem c11_sequential_is_instance_partial (cf : Conf) (k : Kind) (g : G) (order cs : List Nat)
     (hni : NoInteraction cf g) (hnd : order.Nodup) (r : Nat) :
     proj r (session cf k g order cs).trace = proj r (exec (runSys cf) g.rs (session cf k g order cs).picks).2 ∧
     (session cf k g order cs).g.rs r = (exec (runSys cf) g.rs (session cf k g order cs).picks).1 r := by
